@@ -22,7 +22,7 @@ PROP = dict(
     theorems=["C04_qos", "C04_granted", "C04_ids", "C04_ids_retained", "C04_retain", "C04_history"],
     model_files="coq/Session/Deliver.v",
     rule="server maximum QoS 0/1/2 x subscriber version 4/5 x every single subscription over (QoS 0-2, identifier none/1/2, "
-         "RAP) (exhaustive) + sampled sets of 2-3 overlapping subscriptions over {a/b, a/+, a/#, #} (quick 28, thorough 1200 "
+         "RAP) (exhaustive) + sampled sets of 2-3 overlapping subscriptions over {a/b, a/+, a/#, #} (quick 150, thorough 3000 "
          "per configuration); per set: three retained messages published at QoS 0/1/2 before the subscriptions (retained "
          "deliveries on each SUBSCRIBE), then live publishes at QoS 0/1/2 x retain flag; scripted merges of one client's "
          "non-shared subscription with two shared selections and an inline publish.  non-trivial = a PUBLISH was delivered "
